@@ -184,3 +184,10 @@ Definition core_of_resp (r : resp) : core :=
 Definition drop_field (c : core) : core :=
   {| cname := cname c; cid := cid c; cfield := None; cmsg := cmsg c;
      ctimeout := ctimeout c; ctemporary := ctemporary c; cfault := cfault c |}.
+
+(* http/client.go ErrInvalidResponse: the flags the generated client gives an error built
+   from an unexpected status code *)
+Definition client_flags (code : nat) : bool * bool * bool :=   (* timeout, temporary, fault *)
+  (Nat.eqb code 408 || Nat.eqb code 504,
+   Nat.eqb code 503 || Nat.eqb code 409 || Nat.eqb code 429 || Nat.eqb code 504,
+   Nat.eqb code 500 || Nat.eqb code 501 || Nat.eqb code 502).
